@@ -147,7 +147,29 @@ def run_case(case):
             if info["undefined_error"]:
                 chance += 1
         return h.hexdigest()[:20], chance
+    def lookahead():
+        """The same seeded action sequence as a roll-out of
+        generative_step from state to state (what a planning agent does),
+        the environment itself staying at its initial state."""
+        np.random.seed(case["seed"])
+        env.reset()
+        s = env.current_state.copy()
+        h = hashlib.sha256()
+        for a in case["actions"]:
+            if a == "reset":
+                s = env.current_state.copy()
+                continue
+            s, o, r, done, info = env.generative_step(s, int(a))
+            h.update(s.tensor.tobytes())
+            h.update(o.tensor.tobytes())    # an Observation object here
+            h.update(repr((float(r), bool(done), bool(info["success"]),
+                           bool(info["undefined_error"]))).encode())
+        return h.hexdigest()[:20]
     fp, chance = play()
+    try:
+        fp_look = [lookahead(), lookahead()]
+    except Exception as e:      # noqa
+        fp_look = ["raised:" + type(e).__name__] * 2
     # the same seeded run once more on the very same environment object
     fp_same_env, _ = play()
     # ... and once more with read-only calls (render, mask, goal query)
@@ -155,7 +177,7 @@ def run_case(case):
     env = NASimEnv(sc, **case["modes"])
     fp_render, _ = play(render=True)
     return {"fp": fp, "chance": chance, "fp_same_env": fp_same_env,
-            "fp_render": fp_render}
+            "fp_render": fp_render, "fp_look": fp_look}
 
 
 def child_main():
@@ -336,6 +358,13 @@ def run(prop, tier, seed, shard, nshards):
                           {"first": fps,
                            "again_on_same_env": [r.get("fp_same_env")
                                                  for r in res]}, wit)
+        elif ctype == "traj" and (
+                any(r["fp_look"][0] != r["fp_look"][1] for r in res) or
+                len({r["fp_look"][0] for r in res}) > 1):
+            acc.violation("lookahead_rollout_not_reproducible",
+                          "lookahead_rollout_not_reproducible",
+                          {"fingerprints_twice_per_process":
+                           [r["fp_look"] for r in res]}, wit)
         elif any(a != b for a, b in zip(fps, again)):
             acc.violation("not_reproducible_in_process",
                           f"not_reproducible_in_process:{ctype}",
@@ -366,6 +395,7 @@ def run(prop, tier, seed, shard, nshards):
                 acc.count("generated_cases_reaching_set_choice_branch")
                 acc.count("set_choice_branch_rules", res[0]["branch"])
         else:
+            acc.count("lookahead_rollouts_compared", 2 * len(res))
             if res[0]["chance"] >= 5:
                 acc.nontrivial("traj", fps[0], c["seed"])
                 acc.count("trajectories_with_5_chance_steps")
